@@ -151,6 +151,21 @@ def check(case):
         R.append(rj)
         T.append(set(d["train"]))
     trained = all(m.is_trained for m in models)
+    gtok = r.get("given_token")
+    if case.get("single_trained") and gtok is not None and gtok not in {m.estimator.__dict__.get("token_") for m in models} \
+            and logs.get(gtok, {}).get("final"):
+        # The re-training of the model brew was given "performed worse" in some fold and brew fell back to that model for every
+        # PSM (documented).  What it was trained on is the caller's business; the fold models of THIS run, however, must not
+        # have scored PSMs they (or their spectra) were fitted on.
+        for j in range(len(models)):
+            tkeys = {key_of[rr] for rr in T[j]}
+            seen = [rr for rr in R[j] if rr in T[j] or key_of[rr] in tkeys]
+            require(not seen, "scored-by-model-that-saw-it",
+                    f"fall-back to the handed-over model: fold model {j + 1} of this run scored {len(seen)} PSMs that (or whose spectrum) it "
+                    f"had just been re-trained on, e.g. rows {sorted(seen)[:3]}")
+        for fi, sc in enumerate(scores):
+            require(len(np.asarray(sc).ravel()) == len(dfs[fi]), "score-length", f"file {fi}")
+        return {"nontrivial": False, "classes": ["fall-back-to-the-handed-over-model"]}
     if not trained:
         # Training failed in some fold(s).  There is no "model of its fold" for the PSMs of an untrained fold, so mokapot
         # scores by no model at all (zeros / the best feature).  What the statement still forbids: a returned score that
